@@ -148,6 +148,11 @@ func (s *Server) proxyHTTPRoute(c *gin.Context) {
 	}
 
 	s.httpProxy.ServeHTTP(c.Writer, c.Request, endpointID)
+
+	// Write the response header now, otherwise as this is the 'no route'
+	// handler, an upstream 404 response without a body is overwritten with
+	// the routers own not found response.
+	c.Writer.WriteHeaderNow()
 }
 
 func (s *Server) proxyTCPRoute(c *gin.Context) {
